@@ -1,3 +1,4 @@
 pub mod cjson;
 pub mod keyid;
 pub mod rules;
+pub mod sha2;
